@@ -185,6 +185,7 @@ def triage(unit, gen, vr, unit_cfg):
             continue
         spans = [_callsite(s, gen_file) for s in d.get("spans", [])]
         label, kind, where, fn = None, None, None, None
+        unl = False
         prim = next((s for s in spans if s.get("is_primary")), spans[0] if spans else None)
         # the clause itself ("failed this postcondition/precondition/invariant") is the best source of the label
         spans = sorted(spans, key=lambda s: 0 if (s.get("label") or "").startswith("failed this") else 1)
@@ -235,10 +236,18 @@ def triage(unit, gen, vr, unit_cfg):
                                 "rendered": d.get("rendered", "")})
             continue
         if label is None:
+            # a failing obligation of the extracted code that no contract clause of the template names (overflow of an
+            # arithmetic expression, an index, a callee precondition): it belongs to a property only if the unit says which
+            # property covers "no reachable panic / overflow" for its functions (C14 for the readers); otherwise undecided
+            if not unit_cfg.get("unlabelled_property"):
+                tool_errors.append({"kind": "unlabelled-obligation", "message": "%s at %s in %s: no contract clause names this obligation (undecided)" % (msg, where or "?", fn),
+                                    "rendered": d.get("rendered", "")})
+                continue
             label = where or "?"
+            unl = True
         # property attribution
         mm = re.match(r"((?:C\d+\+)*C\d+)\.", label)
-        prop = mm.group(1).split("+") if mm else [unit_cfg.get("default_property")]
+        prop = mm.group(1).split("+") if mm else [unit_cfg.get("unlabelled_property") if unl else unit_cfg.get("default_property")]
         name = "%s/%s/%s/%s" % (unit, fn or "prelude", cls, label)
         failures.append({"obligation": name, "cls": cls, "property": prop, "fn": fn, "kind": kind,
                          "where": where, "rendered": d.get("rendered", ""), "message": msg})
@@ -401,6 +410,16 @@ def main():
                 unknown.add(mm.group(1))
         inline_map = {}
         for nm in sorted(unknown):
+            # the helper is identified by its name only, so it must be the ONLY function of that name in the unit's source
+            # files (otherwise a helper of another type could be inlined): ambiguous -> no inlining, the error stands
+            ndefs = 0
+            for fpath in sorted(set(f["file"] for f in gen.functions)):
+                try:
+                    ndefs += len(re.findall(r"\bfn\s+%s\s*[<(]" % re.escape(nm), open(os.path.join(args.repo, fpath)).read()))
+                except OSError:
+                    pass
+            if ndefs != 1:
+                continue
             for fpath in sorted(set(f["file"] for f in gen.functions)):
                 try:
                     e = find_simple_method(open(os.path.join(args.repo, fpath)).read(), nm)
